@@ -309,6 +309,42 @@ def where(node):
     return node.where
 
 
+def linear(ig, desc, frame, depth=0):
+    """linear normal form of an integer expression: ({atom: coefficient}, constant). Locals with a single declaration
+    whose initialiser is itself linear are expanded; anything else (a load, a masked expression, a parameter) is an atom"""
+    d = strip_cast(ig.resolve(desc, frame)) if frame is not None else strip_cast(desc)
+    cv = const_val(d)
+    if isinstance(cv, int):
+        return {}, cv
+    if isinstance(d, dict) and d.get("k") == "b" and d.get("op") in ("+", "-") and depth < 8:
+        la, lc = linear(ig, d.get("l"), None, depth + 1)
+        ra, rc = linear(ig, d.get("r"), None, depth + 1)
+        sgn = 1 if d["op"] == "+" else -1
+        out = dict(la)
+        for k_, v_ in ra.items():
+            out[k_] = out.get(k_, 0) + sgn * v_
+        return dict((k_, v_) for k_, v_ in out.items() if v_ != 0), lc + sgn * rc
+    if isinstance(d, dict) and d.get("k") == "l" and "fr" in d and depth < 8:
+        defs = ig.local_defs(ig.frames[d["fr"]], d["id"])
+        if len(defs) == 1 and defs[0][2] == "decl" and defs[0][1] is not None:
+            rhs = strip_cast(defs[0][1])
+            if isinstance(rhs, dict) and (rhs.get("k") == "b" and rhs.get("op") in ("+", "-") or rhs.get("k") in ("l", "c")):
+                return linear(ig, rhs, None, depth + 1)
+        return {"l%s.%s" % (d["fr"], d["id"]): 1}, 0
+    return {pstr(d): 1}, 0
+
+
+def lin_eq(a, b):
+    return a[0] == b[0] and a[1] == b[1]
+
+
+def lin_add(a, b, sign=1):
+    out = dict(a[0])
+    for k_, v_ in b[0].items():
+        out[k_] = out.get(k_, 0) + sign * v_
+    return dict((k_, v_) for k_, v_ in out.items() if v_ != 0), a[1] + sign * b[1]
+
+
 def owners_of(fb, fn, depth=0):
     """the functions a call site inside `fn` is attributed to: fn itself, or - when fn is an extracted helper hidden from the
     rules (core.mark_unknown_helpers) - the functions that call it"""
